@@ -54,7 +54,7 @@ var rawKinds = []struct {
 type accessor struct {
 	Name string
 	// Do applies the accessor; vm is the runtime the value lives in (nil for raw kinds).
-	Do func(vm *otto.Otto, v otto.Value)
+	Do func(vm *otto.Otto, v otto.Value) string
 	// ObjectOnly accessors need v.Object() != nil.
 	ObjectOnly bool
 }
@@ -75,76 +75,86 @@ func setValues(v otto.Value) []struct {
 
 var propNames = []string{"a", "0", "7", "length", "foo", "toString", "self", "A", "Get"}
 
+// ve / se / be render accessor results for the distinct-outcome count.
+func ve(v otto.Value, err error) string {
+	if err != nil {
+		return "err:" + ox.ErrClass(err)
+	}
+	return safeCanon(v)
+}
+
+func se(x interface{}, err error) string {
+	if err != nil {
+		return "err:" + ox.ErrClass(err)
+	}
+	return fmt.Sprintf("%T", x)
+}
+
 func accessors() []accessor {
 	as := []accessor{
-		{Name: "predicates", Do: func(vm *otto.Otto, v otto.Value) {
-			_ = v.IsDefined()
-			_ = v.IsUndefined()
-			_ = v.IsNull()
-			_ = v.IsPrimitive()
-			_ = v.IsBoolean()
-			_ = v.IsNumber()
-			_ = v.IsNaN()
-			_ = v.IsString()
-			_ = v.IsObject()
-			_ = v.IsFunction()
+		{Name: "predicates", Do: func(vm *otto.Otto, v otto.Value) string {
+			return fmt.Sprint(v.IsDefined(), v.IsUndefined(), v.IsNull(), v.IsPrimitive(), v.IsBoolean(), v.IsNumber(), v.IsNaN(),
+				v.IsString(), v.IsObject(), v.IsFunction())
 		}},
-		{Name: "Class", Do: func(vm *otto.Otto, v otto.Value) { _ = v.Class() }},
-		{Name: "String", Do: func(vm *otto.Otto, v otto.Value) { _ = v.String() }},
-		{Name: "Sprintf", Do: func(vm *otto.Otto, v otto.Value) { _ = fmt.Sprintf("%v %s", v, v) }},
-		{Name: "ToBoolean", Do: func(vm *otto.Otto, v otto.Value) { _, _ = v.ToBoolean() }},
-		{Name: "ToFloat", Do: func(vm *otto.Otto, v otto.Value) { _, _ = v.ToFloat() }},
-		{Name: "ToInteger", Do: func(vm *otto.Otto, v otto.Value) { _, _ = v.ToInteger() }},
-		{Name: "ToString", Do: func(vm *otto.Otto, v otto.Value) { _, _ = v.ToString() }},
-		{Name: "Export", Do: func(vm *otto.Otto, v otto.Value) { _, _ = v.Export() }},
-		{Name: "MarshalJSON", Do: func(vm *otto.Otto, v otto.Value) { _, _ = v.MarshalJSON() }},
-		{Name: "json.Marshal", Do: func(vm *otto.Otto, v otto.Value) { _, _ = json.Marshal(v) }},
-		{Name: "Object", Do: func(vm *otto.Otto, v otto.Value) { _ = v.Object() }},
-		{Name: "Call()", Do: func(vm *otto.Otto, v otto.Value) { _, _ = v.Call(otto.UndefinedValue()) }},
-		{Name: "Call(self,1,x)", Do: func(vm *otto.Otto, v otto.Value) { _, _ = v.Call(v, 1, "x") }},
-		{Name: "Call(null,goslice,nil)", Do: func(vm *otto.Otto, v otto.Value) { _, _ = v.Call(otto.NullValue(), []int{1}, nil) }},
-		{Name: "asArgument", Do: func(vm *otto.Otto, v otto.Value) {
-			if vm != nil {
-				_, _ = vm.Call("String", nil, v)
-				_, _ = vm.Call("Object.keys", nil, v)
+		{Name: "Class", Do: func(vm *otto.Otto, v otto.Value) string { return v.Class() }},
+		{Name: "String", Do: func(vm *otto.Otto, v otto.Value) string { return fmt.Sprint(len(v.String()) > 0) }},
+		{Name: "Sprintf", Do: func(vm *otto.Otto, v otto.Value) string { return fmt.Sprint(len(fmt.Sprintf("%v %s", v, v)) > 1) }},
+		{Name: "ToBoolean", Do: func(vm *otto.Otto, v otto.Value) string { return se(v.ToBoolean()) }},
+		{Name: "ToFloat", Do: func(vm *otto.Otto, v otto.Value) string { return se(v.ToFloat()) }},
+		{Name: "ToInteger", Do: func(vm *otto.Otto, v otto.Value) string { return se(v.ToInteger()) }},
+		{Name: "ToString", Do: func(vm *otto.Otto, v otto.Value) string { return se(v.ToString()) }},
+		{Name: "Export", Do: func(vm *otto.Otto, v otto.Value) string { return se(v.Export()) }},
+		{Name: "MarshalJSON", Do: func(vm *otto.Otto, v otto.Value) string { return se(v.MarshalJSON()) }},
+		{Name: "json.Marshal", Do: func(vm *otto.Otto, v otto.Value) string { return se(json.Marshal(v)) }},
+		{Name: "Object", Do: func(vm *otto.Otto, v otto.Value) string { return fmt.Sprint(v.Object() != nil) }},
+		{Name: "Call()", Do: func(vm *otto.Otto, v otto.Value) string { return ve(v.Call(otto.UndefinedValue())) }},
+		{Name: "Call(self,1,x)", Do: func(vm *otto.Otto, v otto.Value) string { return ve(v.Call(v, 1, "x")) }},
+		{Name: "Call(null,goslice,nil)", Do: func(vm *otto.Otto, v otto.Value) string { return ve(v.Call(otto.NullValue(), []int{1}, nil)) }},
+		{Name: "asArgument", Do: func(vm *otto.Otto, v otto.Value) string {
+			if vm == nil {
+				return "-"
 			}
+			return ve(vm.Call("String", nil, v)) + "," + ve(vm.Call("Object.keys", nil, v))
 		}},
-		{Name: "asThis", Do: func(vm *otto.Otto, v otto.Value) {
-			if vm != nil {
-				_, _ = vm.Call("Object.prototype.toString", v)
+		{Name: "asThis", Do: func(vm *otto.Otto, v otto.Value) string {
+			if vm == nil {
+				return "-"
 			}
+			return ve(vm.Call("Object.prototype.toString", v))
 		}},
-		{Name: "Otto.Set", Do: func(vm *otto.Otto, v otto.Value) {
-			if vm != nil {
-				_ = vm.Set("zz", v)
-				_, _ = vm.Run("typeof zz")
+		{Name: "Otto.Set", Do: func(vm *otto.Otto, v otto.Value) string {
+			if vm == nil {
+				return "-"
 			}
+			err := vm.Set("zz", v)
+			return fmt.Sprint(err == nil) + "," + ve(vm.Run("typeof zz"))
 		}},
-		{Name: "Object.Class", ObjectOnly: true, Do: func(vm *otto.Otto, v otto.Value) { _ = v.Object().Class() }},
-		{Name: "Object.Value", ObjectOnly: true, Do: func(vm *otto.Otto, v otto.Value) { _ = v.Object().Value() }},
-		{Name: "Object.Keys", ObjectOnly: true, Do: func(vm *otto.Otto, v otto.Value) { _ = v.Object().Keys() }},
-		{Name: "Object.KeysByParent", ObjectOnly: true, Do: func(vm *otto.Otto, v otto.Value) { _ = v.Object().KeysByParent() }},
-		{Name: "Object.MarshalJSON", ObjectOnly: true, Do: func(vm *otto.Otto, v otto.Value) { _, _ = v.Object().MarshalJSON() }},
+		{Name: "Object.Class", ObjectOnly: true, Do: func(vm *otto.Otto, v otto.Value) string { return v.Object().Class() }},
+		{Name: "Object.Value", ObjectOnly: true, Do: func(vm *otto.Otto, v otto.Value) string { return safeCanon(v.Object().Value()) }},
+		{Name: "Object.Keys", ObjectOnly: true, Do: func(vm *otto.Otto, v otto.Value) string { return fmt.Sprint(len(v.Object().Keys())) }},
+		{Name: "Object.KeysByParent", ObjectOnly: true, Do: func(vm *otto.Otto, v otto.Value) string { return fmt.Sprint(len(v.Object().KeysByParent())) }},
+		{Name: "Object.MarshalJSON", ObjectOnly: true, Do: func(vm *otto.Otto, v otto.Value) string { return se(v.Object().MarshalJSON()) }},
 	}
 	for _, n := range propNames {
 		n := n
-		as = append(as, accessor{Name: "Object.Get(" + n + ")", ObjectOnly: true, Do: func(vm *otto.Otto, v otto.Value) {
-			r, _ := v.Object().Get(n)
+		as = append(as, accessor{Name: "Object.Get(" + n + ")", ObjectOnly: true, Do: func(vm *otto.Otto, v otto.Value) string {
+			r, err := v.Object().Get(n)
 			_ = r.String()
+			return ve(r, err)
 		}})
-		as = append(as, accessor{Name: "Object.Call(" + n + ")", ObjectOnly: true, Do: func(vm *otto.Otto, v otto.Value) {
-			_, _ = v.Object().Call(n)
-			_, _ = v.Object().Call(n, 1, "x", nil)
+		as = append(as, accessor{Name: "Object.Call(" + n + ")", ObjectOnly: true, Do: func(vm *otto.Otto, v otto.Value) string {
+			return ve(v.Object().Call(n)) + "," + ve(v.Object().Call(n, 1, "x", nil))
 		}})
 	}
 	for _, n := range []string{"a", "0", "7", "length", "foo", "A"} {
 		n := n
 		for i, sv := range setValues(otto.Value{}) {
 			i, svName := i, sv.Name
-			as = append(as, accessor{Name: "Object.Set(" + n + "," + svName + ")", ObjectOnly: true, Do: func(vm *otto.Otto, v otto.Value) {
-				_ = v.Object().Set(n, setValues(v)[i].Val)
-				r, _ := v.Object().Get(n)
+			as = append(as, accessor{Name: "Object.Set(" + n + "," + svName + ")", ObjectOnly: true, Do: func(vm *otto.Otto, v otto.Value) string {
+				err := v.Object().Set(n, setValues(v)[i].Val)
+				r, gerr := v.Object().Get(n)
 				_ = r.String()
+				return "set:" + ve(otto.Value{}, err) + ",get:" + ve(r, gerr)
 			}})
 		}
 	}
@@ -215,6 +225,7 @@ func runGoAPIValue(r *rc) {
 }
 
 func execAPI(r *rc, t *template, k apiKind, a accessor, key string) {
+	r.Describe(a.Name + " on value kind " + k.Name)
 	r.Begin(key)
 	var vm *otto.Otto
 	var v otto.Value
@@ -230,8 +241,9 @@ func execAPI(r *rc, t *template, k apiKind, a accessor, key string) {
 	}
 	applicable := !a.ObjectOnly || v.IsObject()
 	var res, post ox.Result
+	desc := ""
 	if applicable {
-		res = ox.Guard(func() (otto.Value, error) { a.Do(vm, v); return otto.Value{}, nil })
+		res = ox.Guard(func() (otto.Value, error) { desc = a.Do(vm, v); return otto.Value{}, nil })
 		if vm != nil {
 			post = ox.Run(vm, "1+1")
 		}
@@ -241,9 +253,12 @@ func execAPI(r *rc, t *template, k apiKind, a accessor, key string) {
 	if !applicable {
 		return
 	}
-	r.Outcome(a.Name + "=>" + outcome(res))
-	if r.WantSample() && (len(k.Name)+len(a.Name))%7 == 0 {
-		r.Sample(a.Name + " on " + k.Name + " => " + outcome(res))
+	if res.Panicked {
+		desc = outcome(res)
+	}
+	r.Outcome(a.Name + "=>" + desc)
+	if r.WantSample() && sparse(key, 97) {
+		r.Sample(a.Name + " on " + k.Name + " => " + desc)
 	}
 	for _, pr := range []struct {
 		phase string
@@ -334,6 +349,7 @@ func runGoAPIOtto(r *rc) {
 				r.Cap("time budget reached")
 				return
 			}
+			r.Describe("Value.Call + Otto.Get/Set/Call/Eval/Context/ToValue/MakeError/Copy for " + c.rendered())
 			r.Begin(key)
 			vm := t.vm.Copy()
 			if b := c.bridged(); b != nil {
@@ -365,7 +381,7 @@ func runGoAPIOtto(r *rc) {
 			r.End()
 			r.EvalN(int64(len(results)), int64(len(results)))
 			r.Outcome(fn.Path + "=>" + outcome(call))
-			if r.WantSample() && (ri+fn.Idx)%41 == 0 {
+			if r.WantSample() && sparse(key, 499) {
 				r.Sample("after " + c.rendered() + " (from Go: " + outcome(call) + "): Get/Set/Call/Eval/Context/ToValue/MakeError/Copy returned")
 			}
 			for _, pr := range results {
